@@ -115,6 +115,7 @@ func properties() map[string]*PropertySpec {
 		Outside:   []string{"that bytes through a TLS connection are protected and that the handshake reads the client's first byte from the raw socket is crypto/tls's contract (§5.5)", "earlier in-flight handlers still holding the plaintext writer (RFC 4511 §4.14.1 forbids pipelining around StartTLS)", "more than two sessions upgrading in parallel (gldap sessions share no state; the test directory's handler is checked with two)"},
 		Harnesses: []HarnessSpec{
 			nat("H_C13_starttls", "starttls", "StartTLS at every position of 1..3 frames, handshake succeeds or fails", ""),
+			eng("H_C13_stop_upgraded", "stopped after upgrade", "Run-level: one connection upgrades with StartTLS, sends 0..1 requests inside the tunnel, goes idle, then the server is stopped (spawn-order schedules): every write after the StartTLS response goes through the TLS connection", ""),
 			{Name: "H_TD_C13_parallel", Pkg: "testdirectory", Reach: []string{"parallel upgrades"},
 				Tweak: func(c *HarnessCfg, tier string) { c.ExtraPkgs["golang.org/x/exp/slices"] = true },
 				Bound: "test directory's StartTLS handler: one session waiting for its client's handshake while a second session binds, upgrades, or starts an upgrade of its own"},
@@ -192,10 +193,10 @@ func properties() map[string]*PropertySpec {
 		}})
 	add(&PropertySpec{ID: "C17",
 		Functions: "(*Server).Run (validateAddrPort, Listen, listenerReady), (*Server).Ready, (*Server).Stop",
-		Outside:   []string{"address forms: the ten rows listed in the harness; the resolver's answer and Listen's outcome are symbolic", "after Stop the flag is not required to drop (the property speaks of the interval until Stop is called)"},
+		Outside:   []string{"address forms: the twelve rows listed in the harness; the resolver's answer and Listen's outcome are symbolic", "after Stop the flag is not required to drop (the property speaks of the interval until Stop is called)"},
 		Harnesses: []HarnessSpec{
 			eng("H_C09_acceptstep", "accept step", "after any number p (0..2^62) of earlier connections Run accepts and serves the next one and keeps running (Ready stays truthful)", ""),
-			eng("H_C17_ready", "run ok", "optionally (TLS) a silent peer that never starts its handshake connects first, or the OnClose callback of an earlier connection is still running; the address may be in use at the first attempt to listen; 12 address forms (incl. ports outside 0..65535) x resolver answer x Listen outcome x 0..2 concurrent Ready pollers x spawn-order schedules", ""),
+			eng("H_C17_ready", "run ok", "optionally a server with 1 s read / write timeouts and a client that connects long after Run started (a new clock epoch); optionally (TLS) a silent peer that never starts its handshake connects first, or the OnClose callback of an earlier connection is still running; the address may be in use at the first attempt to listen; 12 address forms (incl. ports outside 0..65535) x resolver answer x Listen outcome x 0..2 concurrent Ready pollers x spawn-order schedules", ""),
 		}})
 	td := func(name, reach, bound, tiers string) HarnessSpec {
 		return HarnessSpec{Name: name, Pkg: "testdirectory", Native: true, Reach: []string{reach}, Bound: bound, Tiers: tiers,
@@ -215,11 +216,12 @@ func properties() map[string]*PropertySpec {
 		Harnesses: []HarnessSpec{
 			td("H_TD_C20_step", "step", "arbitrary store (each pool user present or not, 1-2 mail values, optional description, optional group) x one of add / delete / modify{add,delete,replace} x {mail,description} x 0..2 values / search, then every pool entry is searched and compared with the model", ""),
 			td("H_TD_C20_seq", "seq", "every sequence of two operations from the empty store", ""),
+			td("H_TD_C20_anydn", "anydn", "add / add again / delete / delete again / add of one concrete entry whose DN lies below the user base, the group base (also in upper case) or neither, into a store with or without one user and one group", ""),
 			td("H_TD_C20_multichange", "multichange", "one Modify request with two changes (each add / delete / replace on mail or description, 0..2 + 0..1 values) against a present entry of arbitrary shape", ""),
 		}})
 	add(&PropertySpec{ID: "C18",
 		Functions: "(*Server).Run (WithTLSConfig, tls.NewListener wrapping, Accept), newConn, (*conn).initConn, (*conn).serveRequests, readRequest, Run$1 teardown",
-		Outside:   []string{"that a TLS connection yields application bytes only after a handshake satisfying its configuration is the crypto/tls contract (DESIGN §5.5): assumed, not verified; plaintext bytes, a missing or wrong client certificate and an abandoned connect are all 'the handshake does not complete'", "testdirectory.GetTLSConfig / Start run with the x509 / ecdsa / pem / big / testify calls replaced by opaque stubs that never fail: only the configuration plumbing (ClientAuth, ClientCAs identity, which configuration reaches the listener) is decided"},
+		Outside:   []string{"that a TLS connection yields application bytes only after a handshake satisfying its configuration is the crypto/tls contract (DESIGN §5.5): assumed, not verified; plaintext bytes, a missing or wrong client certificate and an abandoned connect are all 'the handshake does not complete'", "testdirectory.GetTLSConfig / Start run with the x509 / ecdsa / pem / big / testify calls replaced by opaque stubs that never fail: only the configuration plumbing (ClientAuth, ClientCAs identity, which configuration reaches the listener) and the IsCA / KeyUsage fields of the templates passed to x509.CreateCertificate are decided; certificate chain building is crypto/x509's contract"},
 		Harnesses: []HarnessSpec{
 			eng("H_C18_tls", "tls", "server certificate from a static list, a GetCertificate callback or a GetConfigForClient callback; configurations {none, server authentication, client certificate required} x first client {conforming, failing handshake, abandoned connect} with a conforming second client, spawn-order schedules", ""),
 			eng("H_C17_ready", "run ok", "Run start-up variants (address forms, Listen failing, the address briefly in use at the first attempt, TLS or not): whenever Run serves with a TLS configuration, the handler runs on a TLS connection", ""),
